@@ -101,8 +101,9 @@ def audit_sources() -> list[str]:
 
 def print_axioms(module: str, theorems: list[str], timeout: int = 600) -> dict[str, list[str]]:
     """{theorem: axioms it depends on} via `#print axioms`"""
-    src = f"import {module}\nopen Gx\n" + "\n".join(f"#print axioms {t}" for t in theorems) + "\n"
-    tmp = LEAN / f".axioms_{os.getpid()}_{module.replace('.', '_')}.lean"
+    mods = module.split()
+    src = "".join(f"import {m_}\n" for m_ in mods) + "open Gx\n" + "\n".join(f"#print axioms {t}" for t in theorems) + "\n"
+    tmp = LEAN / f".axioms_{os.getpid()}_{mods[0].replace('.', '_')}.lean"
     tmp.write_text(src)
     try:
         p = subprocess.run(["lake", "env", "lean", str(tmp.name)], cwd=LEAN, env=_env(), capture_output=True, text=True, timeout=timeout)
